@@ -168,4 +168,19 @@ def hasText : Token → Bool
   | .error _ => false
   | _ => true
 
+/-! ## a canonical layout -/
+
+/-- one blank behind every token, a new line behind a `;` -/
+def layoutSep (t : Token) : String := if t = .punct ";" then "\n" else " "
+
+/-- the token list with its canonical separators -/
+def layout (ts : List Token) : List (Token × String) := ts.map (fun t => (t, layoutSep t))
+
+/-- the first pair of adjacent tokens that violates `chainOK` (index of the first of the two; the
+last separator counts as a pair with nothing), `none` iff `chainOK` -/
+def firstBadPair : Nat → List (Token × String) → Option Nat
+  | _, [] => none
+  | i, [p] => if isBlankStr p.2 then none else some i
+  | i, p :: q :: rest => if sepOK p.1 p.2 q.1 then firstBadPair (i + 1) (q :: rest) else some i
+
 end Acme.Dbc.Scan
